@@ -167,6 +167,38 @@ def run(ctx):
         nfields = len(adt['variants'][0]['fields'])
         reads = sum(1 for bb in b['blocks'] if not bb['cleanup'] and bb['term']['k'] == 'call' and bb['term']['callee'].get('dpath', '').endswith('SeqAccess::next_element'))
         rep.ob('R13.2', 'derived Deserialize for %s reads one element per field' % m.group(1), reads == nfields, 'next_element calls %d, fields %d' % (reads, nfields), core.body_loc(b), None)
+    # derived impls are plain: every field is written and read unconditionally.  The serde helper attributes that make a field conditional
+    # (skip_serializing_if, default = "path", default, with, ...) are consumed by the derive and leave only their generated code: a call to
+    # `skip_field`, to `Default::default`, or to a function of this crate inside the derived body.  The callee sets below are the complete
+    # sets observed in today's derived bodies (enumerated, not guessed).
+    SER_OK = ('serde_core::ser::Serializer::serialize_unit_variant', 'serde_core::ser::Serializer::serialize_struct', 'core::ops::try_trait::Try::branch',
+              'serde_core::ser::SerializeStruct::serialize_field', 'core::ops::try_trait::FromResidual::from_residual', 'serde_core::ser::SerializeStruct::end',
+              'serde_core::ser::Serializer::serialize_newtype_struct', 'serde_core::ser::Serializer::serialize_newtype_variant',
+              'serde_core::ser::Serializer::serialize_unit_struct', 'serde_core::ser::Serializer::serialize_tuple_struct',
+              'serde_core::ser::SerializeTupleStruct::serialize_field', 'serde_core::ser::SerializeTupleStruct::end')
+    DE_OK = ('serde_core::de::SeqAccess::next_element', 'core::ops::try_trait::Try::branch', 'core::ops::try_trait::FromResidual::from_residual',
+             'serde_core::de::Error::invalid_length', 'serde_core::de::MapAccess::next_key', 'serde_core::de::MapAccess::next_value',
+             'core::option::{impl#0}::is_some', 'core::option::{impl#0}::is_none', 'serde_core::de::Error::duplicate_field', 'serde::private::de::missing_field',
+             'serde_core::de::MapAccess::next_value_seed', 'serde_core::de::SeqAccess::next_element_seed')
+    n_plain = 0
+    for b in g['bodies']:
+        pth = b['path']
+        hand = 'keypair::PrivateKey' in pth or 'keypair::PublicKey' in pth
+        if b.get('impl_trait_dpath') == 'serde_core::ser::Serialize' and pth.endswith('::serialize') and not hand:
+            okset, what = SER_OK, 'derived Serialize'
+        elif '__Visitor' in pth and (pth.endswith('::visit_seq') or pth.endswith('::visit_map')):
+            okset, what = DE_OK, 'derived Deserialize (%s)' % pth.rsplit('::', 1)[-1]
+        else:
+            continue
+        other = sorted(set(bb['term']['callee'].get('dpath', '?') for bb in b['blocks']
+                           if not bb['cleanup'] and bb['term']['k'] == 'call' and bb['term']['callee'].get('dpath', '?') not in okset))
+        m = re.search(r'(?:Serialize|Deserialize<\'de>) for ([A-Za-z_:0-9]+)', pth)
+        tn = m.group(1) if m else pth[:80]
+        n_plain += int(not other)
+        rep.ob('R13.2', '%s for %s reads/writes every field unconditionally (no skip / default / with code in the derived body)' % (what, tn), not other,
+               'the derived body calls %s: a field is written or read conditionally, or through a custom function, so formats that are not self-describing '
+               '(bincode) and the reloaded value can disagree with what was saved' % other, core.body_loc(b), None)
+    rep.floor('R13.2', 'plain derived serde bodies', n_plain, 50)
     rep.floor('R13.2', 'derived visit_seq bodies checked', len(vs), 14)
     rep.floor('R13.2', 'Serialize impls matched', n_types, 16)
     rep.floor('R13.1', 'leaves surviving the round trip', n_leaves, 30 * len(ctx.suite_names))
